@@ -214,29 +214,56 @@ Proof. destruct f. unfold pad_field. cbn. now rewrite app_nil_r. Qed.
 Lemma map_pad_0 (d : fields) : map (fun nf => (fst nf, pad_field 0 (snd nf))) d = d.
 Proof. induction d as [| [k f] d IH]; cbn [map fst snd]; [reflexivity |]. now rewrite pad_field_0, IH. Qed.
 
-Lemma p_pointdata_emit w : wf_writer w -> all_nodes_written_if_spheres w -> no_user_sphere_radius w ->
+Lemma dict_set_Forall_replace (P : Z * field -> Prop) d k f :
+  NoDup (map fst d) -> Forall (fun nf => fst nf = k \/ P nf) d -> P (k, f) -> Forall P (dict_set d k f).
+Proof.
+  intros Hn H Hf. induction H as [| [k' f'] d Hx Hd IH]; cbn [dict_set]; [repeat constructor; exact Hf |].
+  cbn [map fst] in Hn. inversion Hn as [| ? ? Hnin Hn']; subst.
+  destruct (Z.eqb_spec k k') as [-> | Hk].
+  - constructor; [exact Hf |]. apply Forall_forall. intros x Hx'. rewrite Forall_forall in Hd.
+    destruct (Hd _ Hx') as [E | Px]; [| exact Px]. exfalso. apply Hnin. rewrite <- E. now apply in_map.
+  - constructor; [| now apply IH]. cbn [fst] in Hx. destruct Hx as [E | Px]; [congruence | exact Px].
+Qed.
+
+(* the point-data fields written when the all-node count equals the output-node count *)
+Lemma padded_nodal_ok w : nodal_ok w ->
+  Forall (fun nf => (fst nf = sr_name /\ w_spheres w <> []) \/ field_ok (length (w_points w) + length (w_spheres w)) (snd nf))
+         (map (fun nf => (fst nf, pad_field (length (w_spheres w)) (snd nf))) (w_nodal w)).
+Proof.
+  intros [_ Hf]. apply Forall_forall. intros x Hx. apply in_map_iff in Hx. destruct Hx as [y [<- Hy]]. cbn [fst snd].
+  rewrite Forall_forall in Hf. destruct (Hf _ Hy) as [L | R]; [now left | right; now apply pad_field_ok].
+Qed.
+
+Lemma written_nodal_ok w : nodal_ok w ->
+  Forall (fun nf => field_ok (length (w_points w) + length (w_spheres w)) (snd nf))
+    (if is_nil (w_spheres w) then map (fun nf => (fst nf, pad_field (length (w_spheres w)) (snd nf))) (w_nodal w)
+     else dict_set (map (fun nf => (fst nf, pad_field (length (w_spheres w)) (snd nf))) (w_nodal w)) sr_name
+                   (sphere_field (length (w_points w)) (map snd (w_spheres w)))).
+Proof.
+  intros Hn. pose proof (padded_nodal_ok w Hn) as Hp. destruct (is_nil (w_spheres w)) eqn:Es.
+  - apply is_nil_true in Es. eapply Forall_impl; [| exact Hp]. intros a [[_ Hc] | Ha]; [contradiction | exact Ha].
+  - apply dict_set_Forall_replace.
+    + rewrite map_fst_pad. apply Hn.
+    + eapply Forall_impl; [| exact Hp]. intros a [[Hc _] | Ha]; [now left | now right].
+    + cbn [snd]. replace (length (w_spheres w)) with (length (map snd (w_spheres w))) by apply map_length.
+      apply sphere_field_ok.
+Qed.
+
+Lemma p_pointdata_emit w : wf_writer w -> all_nodes_written_if_spheres w ->
   p_data KPointData (fst (nodal_step w) ++ emit_celldata w ++ []) = Some (abs_pd w, emit_celldata w ++ []).
 Proof.
-  intros (_ & _ & [Hnd Hf] & _) Hall Hsr. unfold nodal_step, abs_pd.
+  intros (_ & _ & Hn & _) Hall. pose proof (written_nodal_ok w Hn) as Hok. unfold nodal_step, abs_pd.
   destruct (is_nil (w_nodal w) && is_nil (w_spheres w)) eqn:E.
   - cbn [fst app]. unfold emit_celldata. destruct (is_nil (w_cell w)); reflexivity.
   - cbn [fst]. rewrite <- app_assoc.
-    assert (Hpad : Forall (fun nf => field_ok (length (w_points w) + length (w_spheres w)) (snd nf))
-                          (map (fun nf => (fst nf, pad_field (length (w_spheres w)) (snd nf))) (w_nodal w))).
-    { apply Forall_forall. intros x Hx. apply in_map_iff in Hx. destruct Hx as [y [<- Hy]]. cbn [snd].
-      apply pad_field_ok. rewrite Forall_forall in Hf. exact (Hf _ Hy). }
+    assert (Hnall : is_nil (w_spheres w) = false -> w_nall w = length (w_points w)).
+    { intros Es. apply is_nil_false in Es. destruct Hall as [? | Hall]; [contradiction | exact Hall]. }
     destruct (is_nil (w_spheres w)) eqn:Es.
     + rewrite p_data_emit; [reflexivity | reflexivity | | apply celldata_no_TF].
       apply is_nil_true in Es. rewrite Es in *. cbn [length] in *.
-      eapply Forall_impl; [| exact Hpad]. intros a Ha. now apply field_ok_arr_len.
-    + apply is_nil_false in Es. destruct Hall as [? | Hall]; [contradiction |]. destruct Hsr as [? | Hsr]; [contradiction |].
-      rewrite dict_set_fresh by (now rewrite map_fst_pad). rewrite Hall.
-      rewrite p_data_emit; [reflexivity | reflexivity | | apply celldata_no_TF].
-      apply Forall_app; split.
-      * eapply Forall_impl; [| exact Hpad]. intros a Ha. now apply field_ok_arr_len.
-      * repeat constructor. cbn [snd]. apply field_ok_arr_len.
-        replace (length (w_spheres w)) with (length (map snd (w_spheres w))) by apply map_length.
-        apply sphere_field_ok.
+      eapply Forall_impl; [| exact Hok]. intros a Ha. now apply field_ok_arr_len.
+    + rewrite (Hnall eq_refl). rewrite p_data_emit; [reflexivity | reflexivity | | apply celldata_no_TF].
+      eapply Forall_impl; [| exact Hok]. intros a Ha. now apply field_ok_arr_len.
 Qed.
 
 Lemma p_celldata_emit w : wf_writer w -> no_cell_data_with_edges w ->
@@ -251,12 +278,12 @@ Proof.
 Qed.
 
 Lemma parse_write w : wf_writer w -> all_nodes_written_if_spheres w -> no_cell_data_with_edges w ->
-  no_user_sphere_radius w -> parse (fst (write w)) = Some (abstract w).
+  parse (fst (write w)) = Some (abstract w).
 Proof.
-  intros Hwf Hall Hce Hsr. unfold write. cbn [fst]. unfold header. cbn [app parse].
+  intros Hwf Hall Hce. unfold write. cbn [fst]. unfold header. cbn [app parse].
   rewrite p_points_emit, p_cells_emit by (destruct Hwf as (_ & Hc & _); exact Hc). rewrite p_types_emit.
   rewrite <- (app_nil_r (emit_celldata w)). cbn [app].
-  rewrite (p_pointdata_emit w Hwf Hall Hsr), (p_celldata_emit w Hwf Hce). reflexivity.
+  rewrite (p_pointdata_emit w Hwf Hall), (p_celldata_emit w Hwf Hce). reflexivity.
 Qed.
 
 Lemma data_ok_fields n (fs : fields) : Forall (fun nf => field_ok n (snd nf)) fs ->
@@ -270,7 +297,7 @@ Qed.
 
 Lemma check_abstract w : wf_writer w -> in_range w -> check (abstract w) = true.
 Proof.
-  intros (_ & Hc & [_ Hn] & [_ Hcf]) Hr. unfold check.
+  intros (_ & Hc & Hn & [_ Hcf]) Hr. unfold check.
   assert (E1 : c_size (abstract w) = true) by (unfold c_size, abstract; cbn [d_size d_cells]; apply Nat.eqb_refl).
   assert (E2 : c_types (abstract w) = true).
   { unfold c_types, abstract, abs_types, abs_cells. cbn [d_types d_cells].
@@ -285,15 +312,7 @@ Proof.
     replace (length (abs_pts w)) with (length (w_points w) + length (w_spheres w))
       by (unfold abs_pts; now rewrite app_length, !map_length).
     destruct (is_nil (w_nodal w) && is_nil (w_spheres w)); [reflexivity |].
-    apply data_ok_fields.
-    assert (Hpad : Forall (fun nf => field_ok (length (w_points w) + length (w_spheres w)) (snd nf))
-                          (map (fun nf => (fst nf, pad_field (length (w_spheres w)) (snd nf))) (w_nodal w))).
-    { apply Forall_forall. intros x Hx. apply in_map_iff in Hx. destruct Hx as [y [<- Hy]]. cbn [snd].
-      apply pad_field_ok. rewrite Forall_forall in Hn. exact (Hn _ Hy). }
-    destruct (is_nil (w_spheres w)); [exact Hpad |]. apply Forall_app; split; [exact Hpad |].
-    constructor; [| constructor]. cbn [snd].
-    replace (length (w_spheres w)) with (length (map snd (w_spheres w))) by apply map_length.
-    apply sphere_field_ok. }
+    apply data_ok_fields. exact (written_nodal_ok w Hn). }
   assert (E5 : c_cd (abstract w) = true).
   { unfold c_cd, abstract, abs_cd. cbn [d_cd d_cells].
     replace (length (abs_cells w)) with (length (w_cells w) + length (w_edges w))
@@ -360,13 +379,13 @@ Qed.
 Lemma add_nodal_field_wf w nm data ft dt w' :
   wf_writer w -> add_nodal_field w nm data ft dt = Some w' -> wf_writer w'.
 Proof.
-  intros (Hl & Hc & Hn & Hcf) H. unfold add_nodal_field in H.
+  intros (Hl & Hc & [Hn1 Hn2] & Hcf) H. unfold add_nodal_field in H.
   destruct (gather data (w_outnodes w)) as [sel |] eqn:Es; [| discriminate].
   destruct (mapM (format_entity ft) sel) as [rows |] eqn:Er; [| discriminate]. inversion H.
-  unfold wf_writer, set_nodal. cbn [w_outnodes w_points w_cells w_k w_nodal w_cell].
+  unfold wf_writer, nodal_ok, set_nodal. cbn [w_outnodes w_points w_cells w_k w_nodal w_cell w_spheres].
   repeat split; try assumption; try apply Hcf.
-  - apply dict_set_nodup, Hn.
-  - apply dict_set_Forall; [apply Hn |]. cbn [snd]. rewrite <- Hl, <- (mapM_length _ _ _ Es).
+  - now apply dict_set_nodup.
+  - apply dict_set_Forall; [exact Hn2 |]. right. cbn [snd]. rewrite <- Hl, <- (mapM_length _ _ _ Es).
     eapply formatted_field_ok; exact Er.
 Qed.
 
@@ -377,14 +396,19 @@ Proof.
   destruct (Nat.eqb_spec (length data) (length (w_cells w))) as [El |]; [| now inversion H; subst].
   destruct (mapM (format_entity ft) data) as [rows |] eqn:Er; [| discriminate]. inversion H.
   destruct Hw as (Hl & Hc & Hn & Hcf).
-  unfold wf_writer, set_cell. cbn [w_outnodes w_points w_cells w_k w_nodal w_cell].
+  unfold wf_writer, nodal_ok, set_cell. cbn [w_outnodes w_points w_cells w_k w_nodal w_cell w_spheres].
   repeat split; try assumption; try apply Hn.
   - apply dict_set_nodup, Hcf.
   - apply dict_set_Forall; [apply Hcf |]. cbn [snd]. rewrite <- El. eapply formatted_field_ok; exact Er.
 Qed.
 
 Lemma add_sphere_wf w x y r : wf_writer w -> wf_writer (add_sphere w x y r).
-Proof. intros H. exact H. Qed.
+Proof.
+  intros (Hl & Hc & [Hn1 Hn2] & Hcf). unfold wf_writer, nodal_ok, add_sphere.
+  cbn [w_outnodes w_points w_cells w_k w_nodal w_cell w_spheres]. repeat split; try assumption; try apply Hcf.
+  eapply Forall_impl; [| exact Hn2]. intros a [[E _] | Ha]; [left | now right].
+  split; [exact E |]. intros Hnil. apply app_eq_nil in Hnil. destruct Hnil as [_ Hnil]. discriminate.
+Qed.
 Lemma add_contact_edges_wf w es : wf_writer w -> wf_writer (add_contact_edges w es).
 Proof. intros H. exact H. Qed.
 
@@ -441,6 +465,20 @@ Proof.
     rewrite (write_sr w Hst). cbn [fst]. now apply (writes_sr n).
 Qed.
 
+
+(* write() keeps the invariant when it does not pad a user field *)
+Lemma write_wf w : wf_writer w -> w_spheres w = [] \/ only_sphere_radius w -> wf_writer (snd (write w)).
+Proof.
+  intros Hw Hc. destruct (w_spheres w) as [| s ss] eqn:Es.
+  - now rewrite (write_no_spheres w Es).
+  - destruct Hc as [? | Hc]; [discriminate |]. destruct Hw as (Hl & Hcl & [Hn1 Hn2] & Hcf).
+    assert (Hst : sr_state w) by (split; [congruence | now apply nodal_shape]).
+    rewrite (write_sr w Hst). cbn [snd]. unfold wf_writer, nodal_ok, set_nodal.
+    cbn [w_outnodes w_points w_cells w_k w_nodal w_cell w_spheres map fst].
+    repeat split; try assumption; try apply Hcf.
+    + repeat constructor. intros [].
+    + repeat constructor. left. split; [reflexivity | congruence].
+Qed.
 
 (* ------------------------------------------------------------------ what [check] means *)
 Lemma data_ok_sound n d : data_ok n d = true -> data_spec n d.
